@@ -2,7 +2,7 @@
 import math
 
 import envelope as E
-from common import run_model, enc, unbits, same_float, rel_close, is_real_finite
+from common import run_model, enc, unbits, same_float, rel_close, is_real_finite, tie_equal
 
 ID = 'C12'
 LEAN_MODULES = ['Dhlldv.Props.C12']
@@ -96,7 +96,7 @@ def correspondence(ctx):
         ctx.count('corr_compared')
         toks = o.split(' ')
         got = [tuple(unbits(x) for x in t.split(':')) for t in toks[3:]]
-        if len(got) != len(w) or not all(same_float(a[0], b[0]) and same_float(a[1], b[1]) for a, b in zip(got, w)):
+        if len(got) != len(w) or not all(tie_equal(ctx, a[0], b[0]) and tie_equal(ctx, a[1], b[1]) for a, b in zip(got, w)):
             ctx.mismatch('Spec.Fracs.createFracs differs from create_fracs', {'points': {str(k): v for k, v in m[1].items()}, 'slurry': m[0]}, got[:4], w[:4])
         # get_dx model on this grading
         if len(glines) < ctx.n(600, 20000):
@@ -115,7 +115,7 @@ def correspondence(ctx):
     gouts = run_model(glines)
     for o, (r, fr) in zip(gouts, gw):
         ctx.count('corr_compared')
-        ok = (o == r) if isinstance(r, str) else (o != 'ValueError' and same_float(unbits(o), r))
+        ok = (o == r) if isinstance(r, str) else (o != 'ValueError' and tie_equal(ctx, unbits(o), r))
         if not ok:
             ctx.mismatch('Spec.Fracs.getDx differs from Slurry.get_dx', {'frac': fr}, o, r)
     ctx.sample({'points': {str(k): v for k, v in metas[0][1].items()}, 'slurry': metas[0][0], 'kind': metas[0][2]})
